@@ -33,15 +33,20 @@ type fn struct {
 	// arrays, string concatenation, unsafe.String, foreign error values, unmodelled calls). Such
 	// functions are placed in separate <File>Text modules so that the modules the existing proofs
 	// import keep their text byte for byte.
-	text       bool
-	unmodelled []string // foreign calls replaced by `throw (Go.Panic.unmodelled …)`, in source order
-	dropped    []string // foreign calls inside a panic message (the message is not modelled)
-	okSel      map[*ast.SelectorExpr]bool
-	callees    map[*types.Func]bool
-	gvars      map[*types.Var]bool
-	skip       string
-	lines      []string
-	writes     []string // package-level vars written (effects table)
+	text bool
+	// big: the function uses (or calls a function that uses) math/big values (big.go). Such
+	// functions are placed in separate <File>Big modules importing Go/Big.lean.
+	big            bool
+	bigInf         *bigInfo
+	bigStoredParam []int    // indices of *big.Int / *big.Rat parameters the function stores into
+	unmodelled     []string // foreign calls replaced by `throw (Go.Panic.unmodelled …)`, in source order
+	dropped        []string // foreign calls inside a panic message (the message is not modelled)
+	okSel          map[*ast.SelectorExpr]bool
+	callees        map[*types.Func]bool
+	gvars          map[*types.Var]bool
+	skip           string
+	lines          []string
+	writes         []string // package-level vars written (effects table)
 }
 
 type gvar struct {
@@ -148,7 +153,8 @@ func (t *tr) collect() {
 				}
 				for k := 0; k < sig.Params().Len(); k++ {
 					p := sig.Params().At(k)
-					if _, ok := p.Type().(*types.Pointer); ok {
+					// *big.Int / *big.Rat parameters are values, not in-out arguments (big.go)
+					if _, ok := p.Type().(*types.Pointer); ok && !isBigPtr(p.Type()) {
 						F.inout = append(F.inout, p)
 					}
 				}
@@ -334,6 +340,9 @@ func (t *tr) analyseFn(F *fn) {
 		if strings.Contains(lt, "Go.F64") || strings.Contains(lt, "Go.F32") {
 			F.usesFloat = true
 		}
+		if strings.Contains(lt, "Go.Big") {
+			F.big = true
+		}
 	}
 	if r := sig.Recv(); r != nil {
 		checkType(r.Type(), F.decl)
@@ -345,6 +354,9 @@ func (t *tr) analyseFn(F *fn) {
 		checkType(sig.Results().At(k).Type(), F.decl)
 	}
 	ast.Inspect(F.decl.Body, func(n ast.Node) bool {
+		if handled, descend := t.analyseBig(F, n, unsupported); handled {
+			return descend
+		}
 		if handled, descend := t.analyseText(F, n, unsupported); handled {
 			return descend
 		}
@@ -448,6 +460,7 @@ func (t *tr) analyseFn(F *fn) {
 		}
 		return true
 	})
+	t.checkBigFlow(F, unsupported)
 }
 
 func (t *tr) analyseCall(F *fn, n *ast.CallExpr, unsupported func(ast.Node, string)) {
@@ -520,6 +533,9 @@ func (t *tr) analyse() {
 	for _, F := range t.order {
 		t.analyseFn(F)
 	}
+	for _, F := range t.order {
+		t.checkBigCalls(F)
+	}
 	// global variables: initialisers must be constant composite literals
 	for _, g := range t.gord {
 		if _, err := leanTypeE(g.obj.Type()); err != nil {
@@ -573,14 +589,16 @@ func (t *tr) analyse() {
 			m := F.local || F.hasLoop
 			u := F.usesG
 			tx := F.text
+			bg := F.big
 			for c := range F.callees {
 				C := t.funcs[c]
 				m = m || C.monadic
 				u = u || C.usesG
 				tx = tx || C.text
+				bg = bg || C.big
 			}
-			if m != F.monadic || u != F.usesG || tx != F.text {
-				F.monadic, F.usesG, F.text = m, u, tx
+			if m != F.monadic || u != F.usesG || tx != F.text || bg != F.big {
+				F.monadic, F.usesG, F.text, F.big = m, u, tx, bg
 				changed = true
 			}
 		}
@@ -590,6 +608,9 @@ func (t *tr) analyse() {
 // ---------------------------------------------------------------- types
 
 func leanTypeE(t types.Type) (string, error) {
+	if s, ok := bigLeanType(t); ok {
+		return s, nil
+	}
 	switch u := t.(type) {
 	case *types.Pointer:
 		return leanTypeE(u.Elem())
@@ -605,7 +626,13 @@ func leanTypeE(t types.Type) (string, error) {
 		if _, ok := isMultiWord(u); ok {
 			return leanTypeName(u.Obj().Name()), nil
 		}
-		if _, ok := u.Underlying().(*types.Struct); ok {
+		if st, ok := u.Underlying().(*types.Struct); ok {
+			for i := 0; i < st.NumFields(); i++ {
+				// math/big values live in variables only (big.go): Types.lean does not import Go/Big.lean
+				if ft := st.Field(i).Type(); isBigPtr(ft) || isBigWords(ft) {
+					return "", fmt.Errorf("struct %s with a math/big field", u.Obj().Name())
+				}
+			}
 			return u.Obj().Name(), nil
 		}
 		return leanTypeE(u.Underlying())
